@@ -330,3 +330,68 @@ def line_col(buf, off):
 def crash_class(obs):
     m = re.search(r"(runtime error: [a-z -]+|AddressSanitizer: [A-Za-z-]+|LeakSanitizer|TIMEOUT|rc=-?\d+)", obs)
     return (m.group(1) if m else "crash").replace(" ", "-")[:60]
+
+
+# ------------------------------------------------------------------ tag dispatch oracle
+HANDLERS = {"inst": 0, "uuid": 1, "fail": 2, "nomsg": 3, "my/tag": 4, "x": 5}
+
+
+def strip_for_dispatch(obs):
+    """value text without ranges + handler id sequence, or error class (+handler message)"""
+    so = split_obs(obs)
+    if so[0] == "OK":
+        calls = re.findall(r":h(\d+)@", so[2])
+        return "OK " + re.sub(r"@\d+-\d+", "", so[1]) + " calls=" + ",".join(calls)
+    if so[0] == "ERR":
+        calls = re.findall(r":h(\d+)@", so[5])
+        return "ERR %s %s calls=%s" % (so[1], so[2] if so[2].startswith("hmsg") else "msg", ",".join(calls))
+    return obs
+
+
+def dispatch_oracle(plain_dump, reg, mode):
+    """expected observation under a registry, from the registry-free reading of the same text"""
+    root = parse_dump(plain_dump)
+    table = {} if reg == "+" else dict((k, int(v)) for k, v in (it.rsplit(":", 1) for it in reg.split(",")))
+    calls = []
+
+    class Fail(Exception):
+        pass
+
+    def text(n):
+        # children first (inner tags first), in document order
+        if n.kind == "tag":
+            tag = bytes.fromhex(n.text).decode()
+            inner = text(n.kids[0])
+            if tag in table:
+                h = table[tag]
+                calls.append(str(h))
+                if h == 0:
+                    out = inner
+                elif h == 1:
+                    out = "(vec " + inner + ")"
+                elif h == 2:
+                    raise Fail("ERR INVALID_SYNTAX hmsg:626f6f6d")
+                elif h == 3:
+                    raise Fail("ERR INVALID_SYNTAX msg")
+                elif h == 4:
+                    out = "ext:7:42"
+                else:
+                    out = "kw:~:7265706c61636564"
+                return out
+            if mode == 1:
+                return inner
+            if mode == 2:
+                raise Fail("ERR UNKNOWN_TAG msg")
+            return "(tag:%s %s)" % (n.text, inner) + meta_text(n)
+        if n.kids or n.kind in ("list", "vec", "map", "set"):
+            return "(" + n.kind + "".join(" " + text(k) for k in n.kids) + ")" + meta_text(n)
+        return n.kind + ((":" + n.text) if (n.text != "" or n.kind not in ("nil", "true", "false")) else "") + meta_text(n)
+
+    def meta_text(n):
+        return ("^" + text(n.meta)) if n.meta is not None else ""
+
+    try:
+        t = text(root)
+        return "OK " + t + " calls=" + ",".join(calls)
+    except Fail as f:
+        return str(f) + " calls=" + ",".join(calls)
